@@ -4,6 +4,7 @@ package c19
 
 import (
 	"bytes"
+	"compress/gzip"
 	"encoding/csv"
 	"encoding/json"
 	"fmt"
@@ -544,6 +545,16 @@ func server() *httptest.Server {
 			if code == 301 {
 				code = 200
 			}
+			// a server that honours Accept-Encoding, as the real API and every compressing proxy do
+			// (Go's transport asks for gzip by itself and decodes transparently)
+			if strings.Contains(r.Header.Get("Accept-Encoding"), "gzip") && code != 204 && len(body)%3 != 0 {
+				w.Header().Set("Content-Encoding", "gzip")
+				w.WriteHeader(code)
+				zw := gzip.NewWriter(w)
+				_, _ = zw.Write(body)
+				_ = zw.Close()
+				return
+			}
 			w.WriteHeader(code)
 			if code != 204 {
 				_, _ = w.Write(body)
@@ -807,7 +818,7 @@ func fsRepoProp() engine.AnyProp {
 }
 
 // tiingoSlowProp: a body that arrives slowly is not a body that is damaged. Once per run (shard 0)
-// a well-formed array of 3000 records is served in two parts 16 s apart (61 s in the thorough
+// a well-formed array of 3000 records is served in two parts 21 s apart (61 s in the thorough
 // tier; the pause is waiting, not a verdict) to a repository built by the factory; every record
 // must arrive.
 var slowBodyOnce sync.Once
@@ -824,7 +835,7 @@ func tiingoSlowProp() engine.AnyProp {
 			}
 			slowBodyOnce.Do(func() {
 				o.Key = "slow body"
-				pause := 16 * time.Second
+				pause := 21 * time.Second
 				if engine.Thorough() {
 					pause = 61 * time.Second
 				}
